@@ -84,6 +84,7 @@ def genuine_fresh(p):
         def integer(s, name, nbytes, signed):
             if name not in s.given and not name.endswith("_scaler"): s.given[name] = list(s.val.to_bytes(4, "big"))[-nbytes:] if nbytes == 4 else [0] * (nbytes - 1) + [0x29]
             return ConcV.integer(s, name, nbytes, signed)
+    ConcV.printable_only = True          # genuine messages: identification strings as meters send them (this module runs in its own process)
     for label, build in all_cases().items():
         for it in range(n + len(crafted)):
             V = CraftedV(rnd, crafted[it]) if it < len(crafted) else (TextyV if it % 2 else ConcV)(rnd); module, func, octs, exp = build(V); payload = bytes(octs); ev += 1
